@@ -64,3 +64,130 @@ def _(fh: "file", start_offset: "opt[int]", maxrange: "int"):
     ghost(before='return "x86"', do=[first_mz_found(F, s, s + k, s + maxrange, maxrange)])
     ghost(before="return None", do=[first_mz_none(F, s, s + maxrange, maxrange)])
     domain(fh=gen_pe_files(), start_offset=ints(None, 0, 1), maxrange=ints(0, 1, 70, 1024))
+
+
+@lemma(props=["C18", "C08"])
+def first_sec_found(F: "bytes", base: "int", k: "int", x: "int", n: "int", rva: "int"):
+    requires(k <= x, x < n, sec_hit(F, base, x, rva), forall(lambda j: not sec_hit(F, base, j, rva), k, x))
+    ensures(first_sec(F, base, k, n, rva) == x)
+    decreases(x - k)
+    if k < x:
+        first_sec_found(F, base, k + 1, x, n, rva)
+
+
+@lemma(props=["C18", "C08"])
+def first_sec_none(F: "bytes", base: "int", k: "int", n: "int", rva: "int"):
+    requires(forall(lambda j: not sec_hit(F, base, j, rva), k, n))
+    ensures(first_sec(F, base, k, n, rva) == -1)
+    decreases(n - k)
+    if k < n:
+        first_sec_none(F, base, k + 1, n, rva)
+
+
+@contract("dissect.cobaltstrike.pe:find_compile_stamps", props=["C18", "C08", "C01"])
+def _(fh: "file", start_offset: "opt[int]", maxrange: "int"):
+    """(compile stamp, export stamp) of the image at the least valid offset: TimeDateStamp of the COFF header and of
+    the export directory found through the first section containing its RVA (x86 and x64 optional headers); None
+    where there is no image / the headers are truncated; never raises"""
+    requires(implies(start_offset is not None, start_offset >= 0), maxrange >= 0)
+    position_independent(fh, when=start_offset is not None)
+    modifies(fh)
+    ghost(entry=True, do=[let("F", file_content(fh)),
+                          let("s", old(file_pos(fh)) if start_offset is None else start_offset),
+                          let("o", first_mz(F, s, s + maxrange, maxrange))])
+    ensures(implies(o == -1, result[0] is None and result[1] is None))
+    ensures(implies(o != -1, result[0] == pe_compile_stamp(F, o)))
+    ensures(implies(o != -1 and pe_export_stamp(F, o) == -1, result[1] is None))
+    ensures(implies(o != -1 and pe_export_stamp(F, o) != -1, result[1] == pe_export_stamp(F, o)))
+    returns("tuple[opt[int],opt[int]]")
+    ghost(after="mz_offset = find_mz_offset(fh, start_offset=start_offset, maxrange=maxrange)",
+          do=[first_mz_props(F, s, s + maxrange, maxrange)])
+    ghost(before="sections = [pestruct.IMAGE_SECTION_HEADER(fh) for _ in range(image.NumberOfSections)]",
+          do=[let("secbase", file_pos(fh)), let("rva", export_dd.VirtualAddress), let("nsec", image.NumberOfSections)])
+    loop(0, index="k", invariant=[ds is None, forall(lambda j: not sec_hit(F, secbase, j, rva), 0, k)],
+         locals={"ds": "any"})
+    ghost(loop_head=0, do=[assert_(section.VirtualAddress == u32le(F, secbase + 40 * k + 12)),
+                           assert_(section.VirtualSize == u32le(F, secbase + 40 * k + 8)),
+                           assert_(section.PointerToRawData == u32le(F, secbase + 40 * k + 20))])
+    ghost(after="ds = section", do=[first_sec_found(F, secbase, 0, k, nsec, rva)])
+    ghost(loop_exit=0, do=[when(ds is None, [first_sec_none(F, secbase, 0, nsec, rva)])])
+    domain(fh=gen_pe_files(), start_offset=ints(None, 0, 1), maxrange=ints(0, 1, 70, 1024))
+
+
+@contract("dissect.cobaltstrike.pe:find_magic_pe", props=["C18", "C08"])
+def _(fh: "file", start_offset: "opt[int]", maxrange: "int"):
+    """the four bytes at e_lfanew of the image at the least valid offset, trailing NULs removed; None without an image"""
+    requires(implies(start_offset is not None, start_offset >= 0), maxrange >= 0)
+    position_independent(fh, when=start_offset is not None)
+    modifies(fh)
+    ghost(entry=True, do=[let("F", file_content(fh)),
+                          let("s", old(file_pos(fh)) if start_offset is None else start_offset),
+                          let("o", first_mz(F, s, s + maxrange, maxrange))])
+    ensures(implies(o == -1, result is None))
+    ensures(implies(o != -1, result == F[o + s32le(F, o + 60):o + s32le(F, o + 60) + 4].rstrip(b"\x00")))
+    returns("opt[bytes]")
+    ghost(after="mz_offset = find_mz_offset(fh, start_offset=start_offset, maxrange=maxrange)",
+          do=[first_mz_props(F, s, s + maxrange, maxrange)])
+    domain(fh=gen_pe_files(), start_offset=ints(None, 0, 1), maxrange=ints(0, 70, 1024))
+
+
+@contract("dissect.cobaltstrike.pe:find_magic_mz", props=["C18", "C08"])
+def _(fh: "file", start_offset: "opt[int]", maxrange: "int"):
+    """the bytes of the image at the least valid offset that precede the first x86 DOS stub signature (e8 00 00 00 00
+    5b) - or, if there is none, the first x64 one (55 48 89 e5 48 81) - within its first 256 bytes; else None"""
+    requires(implies(start_offset is not None, start_offset >= 0), maxrange >= 0)
+    position_independent(fh, when=start_offset is not None)
+    modifies(fh)
+    ghost(entry=True, do=[let("F", file_content(fh)),
+                          let("s", old(file_pos(fh)) if start_offset is None else start_offset),
+                          let("o", first_mz(F, s, s + maxrange, maxrange))])
+    ensures(implies(o == -1, result is None))
+    ensures(implies(o != -1 and F[o:o + 256].find(b"\xe8\x00\x00\x00\x00\x5b") >= 0,
+                    result == F[o:o + 256][:F[o:o + 256].find(b"\xe8\x00\x00\x00\x00\x5b")]))
+    ensures(implies(o != -1 and F[o:o + 256].find(b"\xe8\x00\x00\x00\x00\x5b") == -1
+                    and F[o:o + 256].find(b"\x55\x48\x89\xe5\x48\x81") >= 0,
+                    result == F[o:o + 256][:F[o:o + 256].find(b"\x55\x48\x89\xe5\x48\x81")]))
+    ensures(implies(o != -1 and F[o:o + 256].find(b"\xe8\x00\x00\x00\x00\x5b") == -1
+                    and F[o:o + 256].find(b"\x55\x48\x89\xe5\x48\x81") == -1, result is None))
+    returns("opt[bytes]")
+    ghost(after="mz_offset = find_mz_offset(fh, start_offset=start_offset, maxrange=maxrange)",
+          do=[first_mz_props(F, s, s + maxrange, maxrange)])
+    domain(fh=gen_pe_files(), start_offset=ints(None, 0, 1), maxrange=ints(0, 70, 1024))
+
+
+@contract("dissect.cobaltstrike.pe:find_stage_prepend_append", props=["C18", "C08"])
+def _(fh: "file", start_offset: "opt[int]", maxrange: "int"):
+    """prepend = the bytes in front of the image (None if it starts the file); append = up to 1024 bytes that follow
+    SizeOfHeaders + the raw sizes of all sections, trailing NULs removed (None if there are none / headers truncated)"""
+    requires(implies(start_offset is not None, start_offset >= 0), maxrange >= 0)
+    position_independent(fh, when=start_offset is not None)
+    modifies(fh)
+    ghost(entry=True, do=[let("F", file_content(fh)),
+                          let("s", old(file_pos(fh)) if start_offset is None else start_offset),
+                          let("o", first_mz(F, s, s + maxrange, maxrange))])
+    ensures(implies(o == -1, result[0] is None and result[1] is None))
+    ensures(implies(o == 0, result[0] is None), implies(o > 0, result[0] == F[:o]))
+    ensures(implies(o != -1 and (pe_total_size(F, o) == -1 or o + pe_total_size(F, o) >= len(F)), result[1] is None))
+    ensures(implies(o != -1 and pe_total_size(F, o) != -1 and o + pe_total_size(F, o) < len(F),
+                    result[1] == F[o + pe_total_size(F, o):o + pe_total_size(F, o) + 1024].rstrip(b"\x00")))
+    returns("tuple[opt[bytes],opt[bytes]]")
+    ghost(after="mz_offset = find_mz_offset(fh, start_offset=start_offset, maxrange=maxrange)",
+          do=[first_mz_props(F, s, s + maxrange, maxrange)])
+    ghost(before="sections = [pestruct.IMAGE_SECTION_HEADER(fh) for _ in range(image.NumberOfSections)]",
+          do=[let("secbase", file_pos(fh)), let("size0", size)])
+    loop(0, index="k", invariant=[size == size0 + raw_sum(F, secbase, k), size >= 0, size0 >= 0])
+    ghost(after="append = fh.read(1024) or None", do=[
+        assert_(size == pe_total_size(F, o)),
+        when(append is not None, [assert_(append == F[o + size:o + size + 1024])])])
+    domain(fh=gen_pe_files(), start_offset=ints(None, 0, 1), maxrange=ints(0, 70, 1024))
+
+
+@lemma(props=["C18"])
+def valid_mz_shift(P: "bytes", img: "bytes", x: "int", m: "int"):
+    """bytes prepended to an image shift every header check by their length: the artefacts reported for a stage are
+    those of the image, irrespective of what is prepended (as long as the image stays the first valid candidate)"""
+    requires(0 <= x)
+    ensures(valid_mz(P + img, len(P) + x, m) == valid_mz(img, x, m))
+    let("S", P + img)
+    assert_(len(S) == len(P) + len(img))
+    assert_(forall(lambda i: S[len(P) + i] == img[i], 0, len(img)))
